@@ -333,7 +333,8 @@ inductive JsonNum where
   deriving Inhabited
 
 /-- A JSON number (`-?(0|[1-9][0-9]*)(\.[0-9]+)?`, no exponent) of the class `goParseFloat` decides, as
-`UnmarshalValue` turns it into a value: an int when `float64(int64(x)) == x`, else a float. -/
+`UnmarshalValue` turns it into a value (J1: `parse_json` keeps the spelling, `json.Number`): an integer
+spelling which fits an int64 is that int, exactly; every other number is a float. -/
 def jsonNumber? (cs : List Char) : Option JsonNum :=
   let body := match cs with | '-' :: r => r | _ => cs
   let ip := body.takeWhile (· != '.')
@@ -348,12 +349,12 @@ def jsonNumber? (cs : List Char) : Option JsonNum :=
     | _ => false
   if !grammarOk || !fracOk || cs.head? == some '+' then none
   else
-    match goParseFloat cs with
-    | .ok f =>
-      match floatToI64? f with
-      | some i => if i64ToFloat i == f then some (.int i) else some (.float f)
-      | none => none
-    | _ => none
+    let n : Int := if cs.head? == some '-' then -(digitsVal ip : Int) else (digitsVal ip : Int)
+    if afterIp.isEmpty && decide (-9223372036854775808 ≤ n) && decide (n ≤ 9223372036854775807) then some (.int (I64.ofInt n))
+    else
+      match goParseFloat cs with
+      | .ok f => some (.float f)
+      | _ => none
 
 /-! ## Levenshtein distance (`github.com/agnivade/levenshtein` v1.1.1 `ComputeDistance`, used by `compare_lev`) -/
 
